@@ -120,7 +120,7 @@ func ComposePure[A, B any](fab func(A) B) func(A) fp.Try[B] {
 var Unit fp.Try[fp.Unit] = Success(fp.Unit{})
 
 func Map[T, U any](opt fp.Try[T], f func(v T) U) fp.Try[U] {
-	return Ap(Success(as.Func1(f)), opt)
+	return FlatMap(opt, fp.Compose2(f, Pure[U]))
 }
 
 func FlatMap[A, B any](ta fp.Try[A], fn func(v A) fp.Try[B]) fp.Try[B] {
